@@ -41,7 +41,10 @@ Failing(e) ==
            /\ (e.result_kind # "obj" \/ ~EqV(got, d.val)) THEN {fam \o "_state"} ELSE {})
   \cup (IF specified /\ a.op = "read" /\ e.res = "ok" /\ "ok" \in d.res /\ ~EqV(e.recv_post, d.val) THEN {"c11_read_changed_state_wrongly"} ELSE {})
   \cup (IF specified /\ a.op # "read" /\ e.res = "ok" /\ d.res = {"ok"} /\ e.same # d.same /\ ~(fro /\ cow) THEN {fam \o "_returns_wrong_object"} ELSE {})
-  \cup (IF fro /\ ~unchanged THEN {"c07_frozen_instance_changed"} ELSE {})
+  \* (a read may fill a cache of a frozen instance: the attributes and every other cache entry stay as they were)
+  \cup (IF fro /\ (IF a.op = "read" /\ e.res = "ok" THEN ~(EqV([e.pre EXCEPT !.x = e.recv_post.x], e.recv_post) /\ e.ids_same
+                                                           /\ \A p \in DOMAIN e.pre.x : e.pre.x[p].t = "missing" \/ EqV(e.pre.x[p], e.recv_post.x[p]))
+             ELSE ~unchanged) THEN {"c07_frozen_instance_changed"} ELSE {})
   \cup (IF fro /\ ~cow /\ specified /\ "ok" \notin d.res /\ e.res = "ok" THEN {"c07_inplace_on_frozen_not_rejected"} ELSE {})
   \cup (IF fro /\ cow /\ specified /\ d.res = {"ok"} /\ ~d.same /\ e.res = "ok" /\ e.same THEN {"c07_copy_returns_receiver"} ELSE {})
   \* C11: no cache entry of the observed object differs from the getter on its observed state (override ghost taken from the model)
